@@ -5,6 +5,7 @@
 -/
 import Tranp.Lemmas.SessionRef
 import Tranp.Lemmas.UnloadShape
+import Tranp.Lemmas.LoadShape
 
 namespace Tranp.C04
 open Tranp Tranp.Session
@@ -94,6 +95,22 @@ theorem unload_generated (f : Nat) (s : St L) (m : ModPath) :
   · simp only [h, if_true, unloadF]
     rfl
   · simp only [h, if_false, unloadF]
+
+open Tranp.Generated.LoadShape in
+/-- `Modules.load` as GENERATED from the source (translate/gen_load_shape.py: guard, library load, re-check, registration before
+    the imports, imports, processors, rollback `except Exception: self.unload(p); raise` around the last two; the helpers
+    `__load_libraries` / `__load_dependencies` / `libralies` pinned to the text the model was written from), run as a program over
+    the model state with `rec` for the recursive loads and `rollback` for `self.unload`: it IS the hand-written `loadOne`, so
+    `loadAll` is the recursion read from the source — for every state, module, fuel and list of further modules -/
+theorem load_generated (f : Nat) (p : ModPath) (ps : List ModPath) (s : St L) :
+    (∀ rec rollback, runLs L E rec rollback p modulesLoad s = loadOne L E rec rollback p s) ∧
+    loadAll L E (f + 1) (p :: ps) s =
+      (match runLs L E (loadAll L E f) (unload L E) p modulesLoad s with
+       | (.error e, s') => (.error e, s')
+       | (.ok _, s') => loadAll L E f ps s') := by
+  refine ⟨fun rec rollback => load_generated_eq L E rec rollback p s, ?_⟩
+  rw [load_generated_eq]
+  rfl
 
 /-- … and of an unregistered module does nothing at all (modules.py:133) -/
 theorem unload_noop (s : St L) (m : ModPath) (hm : m ∉ s.mods) : unload L E s m = s :=
